@@ -58,12 +58,20 @@ def run(ctx):
             seed = rp.get("seed", seed)
             first = int(rp["impl_shape_batch"]); last = first + 1; only = rp["impl_shape_chain"]
     journal = os.path.join(wd, "journal.txt")
-    cmd = [h, "--seed", str(seed), "--first", str(first), "--last", str(last)]
-    if only:
-        cmd += ["--only", only]
-    rc, _, err = ctx.run(cmd, stdout_path=journal, timeout=1500)
-    if rc != 0:
-        ctx.fatal("harness c08_impl_shape failed rc=%s %s" % (rc, (err or "")[-500:]))
+    stored = None
+    if ctx.replay and only:
+        stored = rp.get("journal_line")
+    if stored:
+        # a recorded call is re-judged from its journalled line (the generator may have changed since it was recorded)
+        with open(journal, "w") as f:
+            f.write(stored + "\n")
+    else:
+        cmd = [h, "--seed", str(seed), "--first", str(first), "--last", str(last)]
+        if only:
+            cmd += ["--only", only]
+        rc, _, err = ctx.run(cmd, stdout_path=journal, timeout=1500)
+        if rc != 0:
+            ctx.fatal("harness c08_impl_shape failed rc=%s %s" % (rc, (err or "")[-500:]))
     verdicts = os.path.join(wd, "verdicts.txt")
     rc, _, err = ctx.run([drv], stdin_path=journal, stdout_path=verdicts, timeout=1500)
     if rc != 0:
